@@ -27,6 +27,9 @@ type ProgSpec struct {
 	Tags           []string `json:"tags_used"`
 	// NoGlobals: the set is created without any Globals
 	NoGlobals bool `json:"no_globals,omitempty"`
+	// BadGlobal: the set's Globals carry a name that is not an identifier (every execution with a
+	// context is rejected - the first one and all later ones)
+	BadGlobal bool `json:"bad_global,omitempty"`
 	// DebugSet: the set's Debug flag is on (single-task checks only)
 	DebugSet bool `json:"debug_set,omitempty"`
 	// TwoLoaders: the set has a stack of two loaders (see progDisk)
@@ -39,7 +42,7 @@ var textPool = []string{"A", " b ", "\n", "\n  ", "<p>", "</p> <b>", "ü€", "x
 
 var allConstructs = []string{"text", "var", "y", "vsim", "if", "ifequal", "ifnotequal", "for", "with", "set", "macro", "import",
 	"include", "lazyinclude", "cycle", "ifchanged", "filtertag", "spaceless", "autoescape", "firstof", "widthratio",
-	"templatetag", "lorem", "now", "comment", "verbatim", "ssi", "ssiplain", "failexpr", "poly", "lazyvar", "big", "recmacro", "listlit", "ctxfunc", "hiddenrandom", "lookup", "ctxmut", "inlong"}
+	"templatetag", "lorem", "now", "comment", "verbatim", "ssi", "ssiplain", "failexpr", "poly", "lazyvar", "big", "recmacro", "listlit", "ctxfunc", "hiddenrandom", "lookup", "ctxmut", "inlong", "capadd"}
 
 // filters with the argument forms the generator writes for them
 var filterForms = map[string][]string{
@@ -239,6 +242,10 @@ func (p *progGen) node(b *strings.Builder, depth int) {
 		m := p.id("hr")
 		inner := p.pick([]string{"{% lorem 3 w random %}", "{% lorem 2 p random %}", `{% now "2006-01-02 15:04:05" %}`, "{{ s2|random }}x", "{{ strs|random }}x"})
 		fmt.Fprintf(b, "{%% macro %s() %%}.%s{%% endmacro %%}{%% if %s() %%}{%% endif %%}", m, inner, m)
+	case "capadd":
+		// lists glued together by a filter: whatever the engine makes of it, the caller's list is
+		// the caller's (also the part of its backing array behind its length)
+		fmt.Fprintf(b, "{{ capl|add:strs|length }}{{ capl|join:\"+\" }}")
 	case "inlong":
 		// membership in a long list of the caller's
 		fmt.Fprintf(b, "{%% if %s in longs %%}in{%% else %%}out{%% endif %%}", p.pick([]string{`"k7"`, `"k14"`, `"k21"`, "s1", `"k46"`}))
@@ -610,6 +617,7 @@ func GenProgramOpt(g *Tape, size int, allowMut bool) *ProgSpec {
 		}
 		sp.NoGlobals = g.Draw(4) == 0
 		sp.DebugSet = g.Draw(4) == 0
+		sp.BadGlobal = g.Draw(14) == 0
 	}()
 	// swarm: switch a random third of the constructs off
 	for _, c := range allConstructs {
@@ -871,6 +879,7 @@ func (w *World) BuildCtx(d CtxDesc) pongo2.Context {
 		"bigs":      bigStrings[v],
 		"huge":      hugeString,
 		"longs":     longList(v),
+		"capl":      append(make([]string, 0, 8), "c1", "c2", "c3"), // a list with spare capacity behind its length
 		"rdepth":    []int{3, 300, 600}[v],
 		"lz0":       "inc0.tpl",
 		"lz1":       "inc1.tpl",
